@@ -865,6 +865,10 @@ func (s *Sim) StopAll() {
 			close(n.FSM.GateApply)
 			n.FSM.GateApply = nil
 		}
+		if n.FSM.GateSnapshot != nil {
+			close(n.FSM.GateSnapshot)
+			n.FSM.GateSnapshot = nil
+		}
 		go n.R.Stop()
 	}
 	for i := 0; i < 3000; i++ {
